@@ -2,6 +2,8 @@
 # tools/refactor_eval.sh <id>  -- apply a harmless refactoring to /repo, run the checks of every property whose units read the touched files, undo
 ID=$1
 cd /repo || exit 2
+# evidence of runs on PATCHED trees goes to a scratch directory, never to /verif/evidence
+export VERIF_EVIDENCE_DIR=/verif/build/eval-evidence; mkdir -p $VERIF_EVIDENCE_DIR
 git diff --quiet || { echo "repo dirty"; exit 2; }
 git apply /verif/refactorings/$ID/patch.diff || { echo "$ID patch does not apply"; exit 2; }
 FILES=$(git diff --name-only)
